@@ -1654,7 +1654,10 @@ class SizeParamGatherer(
 
     def map_function_definition(self, expr: FunctionDefinition
                                 ) -> frozenset[SizeParam]:
-        return self.combine(*[self.rec(ret)
+        # The body is a different namespace: its placeholders may equal those of
+        # another function, so it must not share the array cache of the caller.
+        new_mapper = self.clone_for_callee(expr)
+        return self.combine(*[new_mapper(ret)
                               for ret in expr.returns.values()])
 
     def map_call(self, expr: Call) -> frozenset[SizeParam]:
